@@ -93,26 +93,48 @@ fn join(a: String, b: String) -> String {
         format!("{} | {}", a, b)
     }
 }
+fn r9_parts<B>(r: &Rank9<B>) -> String {
+    let c = r.verif_counts();
+    format!(
+        "r9 abs={} rel={}",
+        fl(c.iter().map(|x| x.0)),
+        fl(c.iter().map(|x| x.1))
+    )
+}
+fn rsm_parts<const N: usize, const W: usize, B>(r: &RankSmall<N, W, B>) -> String {
+    let (u, c, n) = r.verif_parts();
+    format!(
+        "rs upper={} abs={} rel={} ones={}",
+        fl(u.iter()),
+        fl(c.iter().map(|x| x.0)),
+        fl(c.iter().flat_map(|x| x.1.iter().copied())),
+        n
+    )
+}
 impl P for Rank9<BV> {
     fn parts(&self) -> String {
-        let c = self.verif_counts();
-        format!(
-            "r9 abs={} rel={}",
-            fl(c.iter().map(|x| x.0)),
-            fl(c.iter().map(|x| x.1))
-        )
+        r9_parts(self)
     }
 }
 impl<const N: usize, const W: usize> P for RankSmall<N, W, BV> {
     fn parts(&self) -> String {
-        let (u, c, n) = self.verif_parts();
-        format!(
-            "rs upper={} abs={} rel={} ones={}",
-            fl(u.iter()),
-            fl(c.iter().map(|x| x.0)),
-            fl(c.iter().flat_map(|x| x.1.iter().copied())),
-            n
-        )
+        rsm_parts(self)
+    }
+}
+/// A rank structure whose backend was replaced (public `map`) by a structure the hooks cannot reach
+/// from the outside: `inner` is the dump of that backend taken inside the `map` closure.
+pub struct Wp<T> {
+    st: T,
+    inner: String,
+}
+impl P for Wp<Rank9<SelectAdapt<AB>>> {
+    fn parts(&self) -> String {
+        join(r9_parts(&self.st), self.inner.clone())
+    }
+}
+impl<const N: usize, const W: usize> P for Wp<RankSmall<N, W, SelectAdapt<AB>>> {
+    fn parts(&self) -> String {
+        join(rsm_parts(&self.st), self.inner.clone())
     }
 }
 impl<R: P> P for Select9<R> {
@@ -181,7 +203,10 @@ impl<C: P, const N: usize, const W: usize> P for SelectZeroSmall<N, W, C> {
 
 pub trait RS {
     fn parts(&self) -> String;
+    /// `BitLength::len` (delegated through every wrapper)
     fn len(&self) -> usize;
+    /// the inherent `len()` of the outermost structure
+    fn ilen(&self) -> usize;
     fn bit(&self, i: usize) -> bool;
     fn rank(&self, _p: usize) -> Option<usize> {
         None
@@ -211,9 +236,33 @@ macro_rules! rs_impl {
         impl RS for $t {
             fn parts(&self) -> String { P::parts(self) }
             fn len(&self) -> usize { BitLength::len(self) }
+            fn ilen(&self) -> usize { <$t>::len(self) }
             fn bit(&self, i: usize) -> bool { self[i] }
             $( rs_impl!(@cap $cap); )*
         }
+    };
+    (wp $t:ty; $($cap:ident),*) => {
+        impl RS for Wp<$t> {
+            fn parts(&self) -> String { P::parts(self) }
+            fn len(&self) -> usize { BitLength::len(&self.st) }
+            fn ilen(&self) -> usize { <$t>::len(&self.st) }
+            fn bit(&self, i: usize) -> bool { self.st[i] }
+            $( rs_impl!(@wcap $cap); )*
+        }
+    };
+    (@wcap rank) => {
+        fn rank(&self, p: usize) -> Option<usize> { Some(Rank::rank(&self.st, p)) }
+        fn rank_zero(&self, p: usize) -> Option<usize> { Some(RankZero::rank_zero(&self.st, p)) }
+    };
+    (@wcap numbits) => {
+        fn num_ones(&self) -> Option<usize> { Some(NumBits::num_ones(&self.st)) }
+        fn num_zeros(&self) -> Option<usize> { Some(NumBits::num_zeros(&self.st)) }
+    };
+    (@wcap count) => {
+        fn count_ones(&self) -> Option<usize> { Some(BitCount::count_ones(&self.st)) }
+    };
+    (@wcap select) => {
+        fn select(&self, r: usize) -> Option<Option<usize>> { Some(Select::select(&self.st, r)) }
     };
     (@cap rank) => {
         fn rank(&self, p: usize) -> Option<usize> { Some(Rank::rank(self, p)) }
@@ -241,11 +290,11 @@ type RS3 = RankSmall<1, 11, BV>;
 type RS4 = RankSmall<3, 13, BV>;
 
 rs_impl!(Rank9<BV>; rank, numbits, count);
-rs_impl!(RS0; rank, numbits);
-rs_impl!(RS1; rank, numbits);
-rs_impl!(RS2; rank, numbits);
-rs_impl!(RS3; rank, numbits);
-rs_impl!(RS4; rank, numbits);
+rs_impl!(RS0; rank, numbits, count);
+rs_impl!(RS1; rank, numbits, count);
+rs_impl!(RS2; rank, numbits, count);
+rs_impl!(RS3; rank, numbits, count);
+rs_impl!(RS4; rank, numbits, count);
 rs_impl!(Select9<Rank9<BV>>; rank, numbits, count, select);
 rs_impl!(SelectAdapt<AB>; numbits, count, select);
 rs_impl!(SelectZeroAdapt<AB>; numbits, count, select_zero);
@@ -254,12 +303,14 @@ rs_impl!(SelectZeroAdapt<SelectAdapt<AB>>; numbits, count, select, select_zero);
 rs_impl!(SelectZeroAdapt<SelectAdapt<Rank9<BV>>>; rank, numbits, count, select, select_zero);
 rs_impl!(SelectAdapt<SelectZeroAdapt<AB>>; numbits, count, select, select_zero);
 rs_impl!(SelectZeroAdapt<Select9<Rank9<BV>>>; rank, numbits, count, select, select_zero);
+rs_impl!(wp Rank9<SelectAdapt<AB>>; rank, numbits, count, select);
 
 macro_rules! consts {
     ($($l:literal, $m:literal);*) => {
         $(
             rs_impl!(SelectAdaptConst<AB, Box<[usize]>, $l, $m>; numbits, count, select);
             rs_impl!(SelectZeroAdaptConst<AB, Box<[usize]>, $l, $m>; numbits, count, select_zero);
+            rs_impl!(SelectAdaptConst<Rank9<BV>, Box<[usize]>, $l, $m>; rank, numbits, count, select);
             rs_impl!(SelectZeroAdaptConst<SelectAdaptConst<Rank9<BV>, Box<[usize]>, $l, $m>, Box<[usize]>, $l, $m>;
                 rank, numbits, count, select, select_zero);
         )*
@@ -271,6 +322,16 @@ macro_rules! consts {
                     ("szac_sac_r9", $l, $m) => Some(Box::new(
                         SelectZeroAdaptConst::<_, Box<[usize]>, $l, $m>::new(
                             SelectAdaptConst::<_, Box<[usize]>, $l, $m>::new(Rank9::new(bits))))),
+                    // the one-selecting twin of `szac_map` (D33 concerned both `map`s)
+                    ("sac_map", $l, $m) => Some(Box::new(unsafe {
+                        SelectAdaptConst::<AB, Box<[usize]>, $l, $m>::new(bits.into()).map(|ab| Rank9::new(ab.into_inner()))
+                    })),
+                    // `into_inner` hands back the wrapped structure untouched
+                    ("sac_inner", $l, $m) => Some(Box::new(
+                        SelectAdaptConst::<_, Box<[usize]>, $l, $m>::new(Rank9::new(bits)).into_inner())),
+                    ("szac_inner", $l, $m) => Some(Box::new(
+                        SelectZeroAdaptConst::<_, Box<[usize]>, $l, $m>::new(
+                            SelectAdaptConst::<AB, Box<[usize]>, $l, $m>::new(bits.into())).into_inner())),
                     ("szac_map", $l, $m) => Some(Box::new(unsafe {
                         SelectZeroAdaptConst::<AB, Box<[usize]>, $l, $m>::new(bits.into()).map(|ab|
                             SelectAdaptConst::<_, Box<[usize]>, $l, $m>::new(Rank9::new(ab.into_inner())))
@@ -287,9 +348,10 @@ consts!(12, 3; 0, 0; 1, 0; 2, 0; 3, 1; 4, 0; 5, 2; 6, 0; 8, 1; 8, 4; 10, 2; 13, 
 macro_rules! smalls {
     ($($k:literal, $n:literal, $w:literal);*) => {
         $(
-            rs_impl!(SelectSmall<$n, $w, RankSmall<$n, $w, BV>>; rank, numbits, select);
-            rs_impl!(SelectZeroSmall<$n, $w, RankSmall<$n, $w, BV>>; rank, numbits, select_zero);
-            rs_impl!(SelectZeroSmall<$n, $w, SelectSmall<$n, $w, RankSmall<$n, $w, BV>>>; rank, numbits, select, select_zero);
+            rs_impl!(SelectSmall<$n, $w, RankSmall<$n, $w, BV>>; rank, numbits, count, select);
+            rs_impl!(wp RankSmall<$n, $w, SelectAdapt<AB>>; rank, numbits, count, select);
+            rs_impl!(SelectZeroSmall<$n, $w, RankSmall<$n, $w, BV>>; rank, numbits, count, select_zero);
+            rs_impl!(SelectZeroSmall<$n, $w, SelectSmall<$n, $w, RankSmall<$n, $w, BV>>>; rank, numbits, count, select, select_zero);
         )*
         fn build_small(sid: &str, k: usize, b: usize, bits: BV) -> Option<Box<dyn RS>> {
             match (sid, k) {
@@ -301,6 +363,25 @@ macro_rules! smalls {
                     ("szs_new", $k) => Some(Box::new(SelectZeroSmall::<$n, $w, _>::new(RankSmall::<$n, $w, BV>::new(bits)))),
                     ("szs_ss", $k) => Some(Box::new(SelectZeroSmall::<$n, $w, _>::with_inv(
                         SelectSmall::<$n, $w, _>::with_inv(RankSmall::<$n, $w, BV>::new(bits), b), b))),
+                    // `into_inner` of every layer of the family
+                    ("rs_inner", $k) => Some(Box::new(RankSmall::<$n, $w, BV>::new(RankSmall::<$n, $w, BV>::new(bits).into_inner()))),
+                    ("ss_inner", $k) => Some(Box::new(SelectSmall::<$n, $w, _>::with_inv(RankSmall::<$n, $w, BV>::new(bits), b).into_inner())),
+                    ("szs_inner", $k) => Some(Box::new(SelectZeroSmall::<$n, $w, _>::with_inv(RankSmall::<$n, $w, BV>::new(bits), b).into_inner())),
+                    ("szs_ss_inner", $k) => Some(Box::new(SelectZeroSmall::<$n, $w, _>::with_inv(
+                        SelectSmall::<$n, $w, _>::with_inv(RankSmall::<$n, $w, BV>::new(bits), b), b).into_inner())),
+                    // `RankSmall::map` onto a different backend type (a selector): counters and the
+                    // cached number of ones must survive; `Select` is then delegated to the new backend
+                    ("rs_map_sa", $k) => {
+                        let mut inner = String::new();
+                        let st = unsafe {
+                            RankSmall::<$n, $w, BV>::new(bits).map(|bv| {
+                                let sa = SelectAdapt::with_inv(AB::from(bv), b, 1);
+                                inner = P::parts(&sa);
+                                sa
+                            })
+                        };
+                        Some(Box::new(Wp { st, inner }))
+                    }
                 )*
                 _ => None,
             }
@@ -308,6 +389,18 @@ macro_rules! smalls {
     };
 }
 smalls!(0, 2, 9; 1, 1, 9; 2, 1, 10; 3, 1, 11; 4, 3, 13);
+
+/// the `rank_small!` macro (its first argument is a literal)
+fn build_rank_small_macro(k: usize, bits: BV) -> Option<Box<dyn RS>> {
+    Some(match k {
+        0 => Box::new(sux::rank_small![0; bits]),
+        1 => Box::new(sux::rank_small![1; bits]),
+        2 => Box::new(sux::rank_small![2; bits]),
+        3 => Box::new(sux::rank_small![3; bits]),
+        4 => Box::new(sux::rank_small![4; bits]),
+        _ => return None,
+    })
+}
 
 /// builds structure `sid` with parameters (p1, p2) over `bits`
 fn build(sid: &str, p1: usize, p2: usize, bits: BV) -> Option<Box<dyn RS>> {
@@ -353,10 +446,36 @@ fn build(sid: &str, p1: usize, p2: usize, bits: BV) -> Option<Box<dyn RS>> {
             SelectAdapt::with_inv(AB::from(bits), p1, p2).map(|ab| SelectZeroAdapt::with_inv(ab, p1, p2))
         }),
         "r9_map" => Box::new(unsafe { Rank9::new(bits).map(|b| b) }),
-        "sac" | "szac" | "szac_sac_r9" | "szac_map" => return build_const(sid, p1, p2, bits),
-        "rs" | "ss" | "ss_new" | "szs" | "szs_new" | "szs_ss" => {
-            return build_small(sid, p1, p2, bits)
+        // `Rank9::map` onto a different backend type (a selector): `Select` is then delegated to it
+        "r9_map_sa" => {
+            let mut inner = String::new();
+            let st = unsafe {
+                Rank9::new(bits).map(|bv| {
+                    let sa = SelectAdapt::with_inv(AB::from(bv), p1, p2);
+                    inner = P::parts(&sa);
+                    sa
+                })
+            };
+            Box::new(Wp { st, inner })
         }
+        // `into_inner` of every wrapper: what comes back is the wrapped structure, untouched
+        "r9_inner_sa" => Box::new(SelectAdapt::with_inv(AB::from(Rank9::new(bits).into_inner()), p1, p2)),
+        "s9_inner" => Box::new(Select9::new(Rank9::new(bits)).into_inner()),
+        "sa_inner" => Box::new(SelectAdapt::with_inv(Rank9::new(bits), p1, p2).into_inner()),
+        "sza_inner" => Box::new(
+            SelectZeroAdapt::with_inv(SelectAdapt::with_inv(AB::from(bits), p1, p2), p1, p2).into_inner(),
+        ),
+        // `AddNumBits::{into_raw_parts, from_raw_parts}` round trip under the selector
+        "sa_anb" => {
+            let (b, n) = AB::from(bits).into_raw_parts();
+            Box::new(SelectAdapt::with_inv(unsafe { AB::from_raw_parts(b, n) }, p1, p2))
+        }
+        "rs_macro" => return build_rank_small_macro(p1, bits),
+        "sac" | "szac" | "szac_sac_r9" | "szac_map" | "sac_map" | "sac_inner" | "szac_inner" => {
+            return build_const(sid, p1, p2, bits)
+        }
+        "rs" | "ss" | "ss_new" | "szs" | "szs_new" | "szs_ss" | "rs_inner" | "ss_inner" | "szs_inner"
+        | "szs_ss_inner" | "rs_map_sa" => return build_small(sid, p1, p2, bits),
         _ => return None,
     })
 }
@@ -586,7 +705,14 @@ fn exec(ctx: &mut Ctx, s: &mut S, op: &str) {
                     catch(|| st.count_ones()).map(fmt_u).unwrap_or("panic".into()),
                     format!("ok {}", n1),
                 ),
-                "len" => (format!("ok {}", st.len()), format!("ok {}", s.len)),
+                "len" => {
+                    // `BitLength::len` through the delegation chain and the inherent `len()`
+                    let (a, b) = (st.len(), st.ilen());
+                    (
+                        if a == b { format!("ok {}", a) } else { format!("ok {}/{}", a, b) },
+                        format!("ok {}", s.len),
+                    )
+                }
                 "parts" => {
                     let x = format!("ok {}", st.parts());
                     (x.clone(), x)
@@ -692,6 +818,32 @@ fn all_configs(ctx: &mut Ctx, thorough: bool) -> Vec<(String, usize, usize)> {
         }
     }
     v.push(("r9_map".into(), 0, 0));
+    // type-aware API coverage: `into_inner` / `map` of every structure, `AddNumBits` raw parts,
+    // the `rank_small!` macro (see API_COVERAGE_A.md)
+    for &(l, m) in &[(3usize, 1usize), (10, 2)] {
+        v.push(("r9_map_sa".into(), l, m));
+    }
+    v.push(("r9_inner_sa".into(), 3, 1));
+    v.push(("s9_inner".into(), 0, 0));
+    v.push(("sa_inner".into(), 7, 2));
+    v.push(("sza_inner".into(), 7, 2));
+    v.push(("sa_anb".into(), 3, 1));
+    for k in 0..5 {
+        v.push(("rs_inner".into(), k, 0));
+        v.push(("ss_inner".into(), k, 2));
+        v.push(("szs_inner".into(), k, 2));
+        v.push(("rs_map_sa".into(), k, 3 + k));
+        v.push(("rs_macro".into(), k, 0));
+    }
+    v.push(("szs_ss_inner".into(), 0, 1));
+    v.push(("szs_ss_inner".into(), 4, 1));
+    for &(l, m) in &[(5usize, 2usize), (8, 1), (10, 2)] {
+        v.push(("sac_map".into(), l, m));
+    }
+    for &(l, m) in &[(5usize, 2usize), (13, 4)] {
+        v.push(("sac_inner".into(), l, m));
+        v.push(("szac_inner".into(), l, m));
+    }
     for &(l, m) in &[(12usize, 3usize), (5, 2), (8, 1)] {
         v.push(("szac_map".into(), l, m));
     }
@@ -924,7 +1076,7 @@ fn query_battery(ctx: &mut Ctx, s: &mut S, full: bool) {
 fn offers(sid: &str) -> (bool, bool, bool) {
     // (rank, select, select_zero)
     match sid {
-        "rank9" | "rs" => (true, false, false),
+        "rank9" | "rs" | "rs_inner" | "ss_inner" | "szs_inner" | "s9_inner" | "sa_inner" | "sac_inner" | "rs_macro" => (true, false, false),
         "sel9" | "sa_r9" | "ss" | "ss_new" => (true, true, false),
         "szs" | "szs_new" => (true, false, true),
         "sa" | "sa_new" | "sa_span" | "sac" => (false, true, false),
